@@ -13,7 +13,7 @@ LEVEL_TEXT = ("The Lean mirror of Resolver.get (split on the class separator, ab
               "ignorecase x relax combinations, two separators and a non-default path attribute.")
 LEVEL_NOTE = ("After the fix: commit for D1 (relaxed miss followed by further components). Trusted: Lean kernel, standard axioms; "
               "the mirror lean/Anytree/Model/Resolver.lean and Str.lean (Python str.split/startswith modelled; str.upper modelled on "
-              "ASCII and the 14 letters of Str.caseTable - other characters' case mapping is CPython's and outside the model); the theorems about "
+              "ASCII and the 17 letters of Str.caseTable/Str.multiUpper - other characters' case mapping is CPython's and outside the model); the theorems about "
               "absolute/relative paths are stated on component lists plus a split/join lemma for separator-free names.")
 THEOREMS = [
     ("Anytree.Props.C07.getLoop_eq_walk", "full"),
@@ -34,7 +34,7 @@ THEOREMS = [
     ("Anytree.Props.C07b.get_relPath", "full"),
 ]
 MODULES = ["Anytree.Props.C07", "Anytree.Props.C07b"]
-NOT_COVERED = ["ignorecase on characters outside the model alphabet (ASCII plus the 14 letters of Str.caseTable) is CPython's Unicode case mapping and not modelled; get_absPath/get_relPath carry the exact side condition SepFree (the separator occurs in name+separator only at the end: sepFree_necessary shows it cannot be dropped) and a non-empty root name"]
+NOT_COVERED = ["ignorecase on characters outside the model alphabet (ASCII plus the 17 letters of Str.caseTable/Str.multiUpper) is CPython's Unicode case mapping and not modelled; get_absPath/get_relPath carry the exact side condition SepFree (the separator occurs in name+separator only at the end: sepFree_necessary shows it cannot be dropped) and a non-empty root name"]
 PREDICATE_SPEC = True
 RULE = ("every ordered pair (m, n) of every shape up to N nodes (quick 5, thorough 6) with sibling-unique names: absolute path of n and "
         "the Walker-relative path from m, all four ignorecase x relax combinations; random paths of up to 4/6 components over names, "
